@@ -178,3 +178,5 @@ def run(chk):
     twins.rule_field_copies(chk, cf.PROGRAM[0] or cf.Program(), 'X4', floor=120)
     from . import c06 as _c06
     _c06.run_t7(chk, cf.PROGRAM[0] or cf.Program())
+    from . import clones as _cl
+    _cl.rule_unreachable(chk, 'U1', None, floor=200)
